@@ -159,7 +159,7 @@ class RustBlockingAsyncAnalyzer(RustBaseAnalyzer):
             return None
 
         pattern = _classify_blocking_pattern(path)
-        if pattern is None and _is_imported_std_net_type_call(path, code):
+        if pattern is None and _is_imported_std_net_type_call(path, call_node):
             pattern = "net-in-async"
         if pattern is None:
             return None
@@ -196,15 +196,17 @@ class RustBlockingAsyncAnalyzer(RustBaseAnalyzer):
         return ""
 
 
-def _is_imported_std_net_type_call(path: str, code: str) -> bool:
-    """Check for Type::method calls whose type is imported from std::net in this file.
+def _is_imported_std_net_type_call(path: str, call_node: Node) -> bool:
+    """Check for Type::method calls whose type is imported from std::net in an enclosing scope.
 
-    `TcpStream::connect(..)` is blocking when the file says `use std::net::TcpStream;`
-    (or `use std::net::{TcpListener, TcpStream};`), but not when TcpStream comes from tokio.
+    `TcpStream::connect(..)` is blocking when a `use std::net::TcpStream;` (or
+    `use std::net::{TcpListener, TcpStream};`) declaration is in scope of the call: in the
+    block, module or file that contains it. Declarations of other modules and text quoted in
+    comments do not count; a TcpStream imported from tokio is not blocking.
 
     Args:
         path: Call path (e.g., "TcpStream::connect")
-        code: Source code of the file
+        call_node: The call_expression node
 
     Returns:
         True if the call targets a blocking std::net type imported by name
@@ -212,12 +214,22 @@ def _is_imported_std_net_type_call(path: str, code: str) -> bool:
     type_name = path.split("::", maxsplit=1)[0]
     if "::" not in path or type_name not in _BLOCKING_NET_TYPES:
         return False
-    use_pattern = (
+    use_pattern = re.compile(
         r"use\s+std::net::(?:" + re.escape(type_name) + r"\b|\{[^}]*\b" + re.escape(type_name) + r"\b)"
     )
-    # Only real use declarations count, not ones quoted in comments
-    code_without_comments = re.sub(r"//[^\n]*|/\*.*?\*/", "", code, flags=re.DOTALL)
-    return re.search(use_pattern, code_without_comments) is not None
+    scope: Node | None = call_node.parent
+    while scope is not None:
+        if any(_use_declaration_matches(child, use_pattern) for child in scope.children):
+            return True
+        scope = scope.parent
+    return False
+
+
+def _use_declaration_matches(node: Node, use_pattern: re.Pattern[str]) -> bool:
+    """Check whether a node is a use declaration matching the pattern."""
+    if node.type != "use_declaration" or node.text is None:
+        return False
+    return use_pattern.search(node.text.decode("utf-8", "replace")) is not None
 
 
 def _classify_blocking_pattern(path: str) -> str | None:
